@@ -20,7 +20,7 @@ func init() {
 		ID:   "C06",
 		Race: true,
 		Rule: "Callback trace specification checked online against real Dials instances. Scripted part (every run, shard 0..): all 6 interleavings of {client: ViewVersion, RegisterCallback queued} x {monitor: version stored, new-config event queued}, forced with gates at the dials hook points mon.recv / mon.beforeAnnounce and fenced on observed hook events, " +
-			"for 4 token kinds (fresh, one-behind, many-behind, zero value) x {callback goroutine idle, parked inside a slow OnNewConfig} = 48 schedules, plus 8 unregister-vs-announce schedules and 6 unregister-vs-shutdown schedules (unregister queued behind a backlog while every source calls Done). Stress part: 2-6 clients doing report/ViewVersion/register/reports/unregister(/unregister again) against 1-3 reporters with seeded yields at the hook points. " +
+			"for 4 token kinds (fresh, one-behind, many-behind, zero value) x {callback goroutine idle, parked inside a slow OnNewConfig} = 48 schedules, plus 8 unregister-vs-announce schedules 6 unregister-vs-shutdown schedules (unregister queued behind a backlog while every source calls Done) and 2 queue-overflow schedules (64 events queued behind a parked callback, then source errors and rejected updates: nothing may run concurrently with the parked callback). Stress part: 2-6 clients doing report/ViewVersion/register/reports/unregister(/unregister again) against 1-3 reporters with seeded yields at the hook points. " +
 			"Oracle: from the exact order in which the callback goroutine dequeued events (cb.dequeue hook) and the install log (mon.stored hook) a restatement of the property predicts the invocation sequence (global callback, then live handles with token<serial in registration order with old=predecessor; catch-up exactly when genuine token < last announced at registration processing); predicted and actual sequences must be equal. " +
 			"Independently: never two callbacks in flight, no invocation after unregister returned true, per-handle serials strictly increasing and above the token, dequeued new-config serials equal the install log when the 64-slot queue did not overflow. distinct_nontrivial = distinct (dequeue-order shape, catch-ups due, skips due) signatures with >=1 registration.",
 		Assumptions: []string{
@@ -29,8 +29,8 @@ func init() {
 		},
 		MinDistinct: map[string]int{"quick": 1200, "thorough": 150000},
 		MinCounters: map[string]map[string]int64{
-			"quick":    {"scripted_schedules_run": 62, "callback_invocations_compared": 3000, "catchups_due": 60, "skips_due": 40},
-			"thorough": {"scripted_schedules_run": 62, "callback_invocations_compared": 5000000},
+			"quick":    {"scripted_schedules_run": 64, "callback_invocations_compared": 3000, "catchups_due": 60, "skips_due": 40},
+			"thorough": {"scripted_schedules_run": 64, "callback_invocations_compared": 5000000},
 		},
 		Plan: func(tier string) fw.Plan {
 			if tier == "thorough" {
@@ -570,6 +570,59 @@ func c06ShutdownScript(w *fw.Worker, i int, r *fw.Rand, zeroTok bool, backlog in
 	w.Count("scripted_schedules_run", 1)
 }
 
+// c06OverflowScript: the 64-slot queue is full behind a parked callback and
+// then error events arrive (source errors, rejected updates). The documented
+// behaviour is to drop them; whatever is done instead, callbacks must still
+// run one at a time on the callback goroutine and in queue order.
+func c06OverflowScript(w *fw.Worker, i int, r *fw.Rand) {
+	s, err := c06New(w, i, r, 2, 0)
+	if err != nil {
+		w.Violation(i, "config-failed", err.Error(), nil)
+		return
+	}
+	e := s.e
+	defer e.Stop()
+	ctx := e.S.Ctx
+	s.initial = e.D.View()
+	desc := map[string]any{"script": "queue-overflow-then-errors"}
+	unreg := s.register(1, nil, dials.CfgSerial[conc.Cfg]{})
+	e.CBGate = make(chan struct{})
+	e.Report(ctx, 0, 0, s.validLayer(r), true)
+	if !s.wd(conc.WaitUntil(func() bool { return e.InCB() > 0 }, c06Watchdog), "callback goroutine never parked") {
+		close(e.CBGate)
+		return
+	}
+	for k := 0; k < 70; k++ {
+		e.Report(ctx, 0, k%2, s.validLayer(r), true)
+	}
+	before := len(e.CBLog())
+	for k := 0; k < 3; k++ {
+		e.Srcs[k%2].WA().ReportError(ctx, errSrcReported)
+		bad := e.RandLayer(r, 100, 0)
+		e.Report(ctx, 0, k%2, bad, true)
+	}
+	// monitor fence (this sentinel's event is dropped as well: the queue is full)
+	e.Srcs[0].WA().ReportError(ctx, errSrcReported)
+	e.Srcs[0].WA().ReportError(ctx, errSrcReported)
+	ranWhileParked := len(e.CBLog()) - before
+	overlap := e.Overlap.Load()
+	close(e.CBGate)
+	if unreg != nil {
+		s.unregister(1, unreg)
+	}
+	if !s.wd(e.Quiesce(ctx), "final fence") {
+		return
+	}
+	if ranWhileParked > 0 || overlap {
+		w.Violation(i, "callback-ran-while-another-was-in-flight", fmt.Sprintf("%d callback(s) completed while OnNewConfig was still parked on the callback goroutine (overlap flag: %v)", ranWhileParked, overlap), desc)
+		return
+	}
+	s.judge(desc)
+	w.Count("scripted_schedules_run", 1)
+	w.Count("overflow_scripts_run", 1)
+	w.Distinct("overflowscript")
+}
+
 func c06Stress(w *fw.Worker, i int, r *fw.Rand) {
 	s, err := c06New(w, i, r, r.Range(2, 3), r.Intn(3))
 	if err != nil {
@@ -675,7 +728,8 @@ func runC06(w *fw.Worker) {
 		}
 	}
 	nUnreg := len(list) + 8
-	nScripted := nUnreg + 6
+	nShutdown := nUnreg + 6
+	nScripted := nShutdown + 2
 	w.Cases(func(i int, r *fw.Rand) {
 		g := i*w.Shards + w.Shard // global index
 		switch {
@@ -688,9 +742,11 @@ func runC06(w *fw.Worker) {
 		case g < nUnreg:
 			k := g - len(list)
 			c06UnregScript(w, i, r, k&1 == 1, k&2 == 2, k&4 == 4)
-		case g < nScripted:
+		case g < nShutdown:
 			k := g - nUnreg
 			c06ShutdownScript(w, i, r, k&1 == 1, 1+k/2)
+		case g < nScripted:
+			c06OverflowScript(w, i, r)
 		default:
 			c06Stress(w, i, r)
 		}
